@@ -48,7 +48,9 @@ def main():
         res["imports"] = rc == 0
         if not no_tests:
             xml = os.path.join(wt, "junit.xml")
-            sh("/venv/bin/python -m pytest -q -p no:cacheprovider --timeout=900 --continue-on-collection-errors --junitxml=%s -n 8 2>/dev/null || /venv/bin/python -m pytest -q -p no:cacheprovider --timeout=900 --continue-on-collection-errors --junitxml=%s" % (xml, xml),
+            # pytest exits non-zero anyway (offline svn/cvs/jenkins tests fail on the baseline too): fall back to a
+            # serial run only if the parallel run produced no report
+            sh("/venv/bin/python -m pytest -q -p no:cacheprovider --timeout=900 --continue-on-collection-errors --junitxml=%s -n %s 2>/dev/null; test -s %s || /venv/bin/python -m pytest -q -p no:cacheprovider --timeout=900 --continue-on-collection-errors --junitxml=%s" % (xml, os.environ.get("VSEED_N", "6"), xml, xml),
                cwd=wt, timeout=7200, env=dict(os.environ, PYTHONPATH=os.path.join(wt, "pym")))
             passed = set()
             for tc in ET.parse(xml).getroot().iter("testcase"):
